@@ -50,18 +50,78 @@ def _work(args):
     return res
 
 
+def _worker_loop(modname, tasks, results):
+    _init_worker()
+    while True:
+        item = tasks.get()
+        if item is None:
+            return
+        idx, job = item
+        results.put(("start", idx, os.getpid(), None))
+        res = _work((modname, job))
+        results.put(("done", idx, os.getpid(), res))
+
+
 def run_jobs(modname, jobs, nproc):
+    """Own process pool: a job that overruns its wall-clock budget (z3 can sit in a loop that honours neither its timeout
+    nor an interrupt) is killed together with its worker, reported as inconclusive, and the worker is replaced."""
     if not jobs:
         return []
     nproc = max(1, min(nproc, len(jobs)))
     ctx = mp.get_context("spawn")
-    with ctx.Pool(nproc, initializer=_init_worker, maxtasksperchild=None) as pool:
-        out = []
-        for r in pool.imap_unordered(_work, [(modname, j) for j in jobs], chunksize=1):
-            out.append(r)
-            if os.environ.get("VERIF_VERBOSE"):
-                print("  job", json.dumps(r.get("job"))[:150], r.get("status"), r.get("wall_s"), r.get("note", ""), flush=True)
-    return out
+    tasks, results = ctx.Queue(), ctx.Queue()
+    for i, j in enumerate(jobs):
+        tasks.put((i, j))
+    workers = {}
+
+    def spawn():
+        p = ctx.Process(target=_worker_loop, args=(modname, tasks, results), daemon=True)
+        p.start()
+        workers[p.pid] = p
+    for _ in range(nproc):
+        spawn()
+    out = {}
+    running = {}        # pid -> (idx, start time)
+    hard = float(os.environ.get("VERIF_JOB_HARD_S") or 0)
+    while len(out) < len(jobs):
+        try:
+            kind, idx, pid, res = results.get(timeout=2)
+            if kind == "start":
+                running[pid] = (idx, time.time())
+            else:
+                running.pop(pid, None)
+                out[idx] = res
+                if os.environ.get("VERIF_VERBOSE"):
+                    print("  job", json.dumps(res.get("job"))[:150], res.get("status"), res.get("wall_s"), res.get("note", ""), flush=True)
+        except Exception:  # queue.Empty
+            pass
+        now = time.time()
+        for pid, (idx, t0) in list(running.items()):
+            budget = hard or 1.6 * float(jobs[idx].get("budget_s") or os.environ.get("VERIF_JOB_BUDGET_S") or 1500) + 60
+            if now - t0 > budget:
+                p = workers.pop(pid, None)
+                if p is not None:
+                    p.kill()
+                running.pop(pid, None)
+                out[idx] = {"status": "inconclusive", "note": f"job killed after {int(now - t0)} s (solver did not return within its budget)",
+                            "job": jobs[idx], "stats": {}, "wall_s": round(now - t0, 1)}
+                if os.environ.get("VERIF_VERBOSE"):
+                    print("  job", json.dumps(jobs[idx])[:150], "KILLED", flush=True)
+                spawn()
+        # a worker that died without reporting (segfault, OOM): fail its job
+        for pid, p in list(workers.items()):
+            if not p.is_alive() and pid in running:
+                idx, t0 = running.pop(pid)
+                out[idx] = {"status": "error", "note": f"worker died (exit code {p.exitcode})", "job": jobs[idx], "stats": {}, "wall_s": round(now - t0, 1)}
+                workers.pop(pid)
+                spawn()
+    for _ in workers:
+        tasks.put(None)
+    for p in workers.values():
+        p.join(timeout=5)
+        if p.is_alive():
+            p.kill()
+    return [out[i] for i in range(len(jobs))]
 
 
 def replay_case(modname, case, path):
